@@ -76,6 +76,7 @@ var indexVariants = []struct {
 	{hydrapb.IndexType_UPDATE_TIME, hydrapb.OrderType_DESC},
 	{hydrapb.IndexType_CREATION_TIME, hydrapb.OrderType_ASC},
 	{hydrapb.IndexType_VALUE_STRING, hydrapb.OrderType_ASC},
+	{hydrapb.IndexType_VALUE_INT64, hydrapb.OrderType_DESC},
 }
 
 // execReader runs the bulk readers (C10). Responses are not part of the
@@ -190,6 +191,8 @@ func (e *Env) execReader(client int, op Op) Resp {
 			}
 		}
 		return Resp{Status: n}
+	case "xset", "xdel", "xshift", "xindex":
+		return e.execChurn(client, op)
 	case "count":
 		resp, err := g.Count(ctx, &hydrapb.CountRequest{Swamps: []*hydrapb.CountRequest_SwampIdentifier{{IslandID: isl, SwampName: sn}}})
 		if err != nil {
